@@ -924,6 +924,80 @@ pub fn run_c18(run: &mut Run) -> Stats {
             std::process::exit(2);
         }
         run.extra.insert("threads_sharing_one_file".into(), json!({"calls_interposed": calls, "shapes": sys_info}));
+        // Environment answers a local file never gives: a SHORT read (fewer bytes than asked for)
+        // or a failing read (EIO, EINTR, EAGAIN) at one read call of the stream, every call in turn.
+        // A short read must not show: same bytes, clean end. A failed read either surfaces as an
+        // error with a correct prefix before it, or is retried: never a clean end short of the
+        // range, never other bytes.
+        {
+            use crate::sysched::{with_injection, Inj};
+            let crf = Crf::new(File::open(&path).unwrap(), HeaderMap::new()).unwrap();
+            let ranges: Vec<(u64, u64)> = vec![(0, 200_001), (65_530, 131_080), (5, 6), (0, 65_536), (1, 131_074)];
+            let mut n_inj = 0u64;
+            let mut judge = |st: &mut Stats, r: (u64, u64), via: bool, plan: &str, got: &(Vec<u8>, String), must_complete: bool, may_fail: bool| {
+                let want = content_vec(r.0, (r.1 - r.0) as usize);
+                let (bytes, term) = got;
+                let verdict = if term == "end" {
+                    if *bytes == want {
+                        let _ = may_fail; // a failed read that is retried successfully also yields exactly the bytes
+                        "ok".to_string()
+                    } else if bytes.len() < want.len() && want.starts_with(bytes) {
+                        format!("clean end after {} of {} bytes", bytes.len(), want.len())
+                    } else {
+                        format!("wrong bytes ({} delivered, {} expected)", bytes.len(), want.len())
+                    }
+                } else if term.starts_with("err:") {
+                    if must_complete {
+                        format!("{term} after {} bytes although every read succeeded", bytes.len())
+                    } else if !want.starts_with(bytes) {
+                        format!("{term}, but the bytes before it are not a prefix of the range")
+                    } else {
+                        "ok".to_string()
+                    }
+                } else {
+                    format!("terminal event {term} after {} bytes", bytes.len())
+                };
+                st.evaluations += 1;
+                st.nontrivial(&("inj", r, via, plan));
+                let s0 = st.state(&("inj", plan.split(':').next().unwrap_or("").to_string(), via));
+                let s1 = st.state(&("inj-result", verdict == "ok"));
+                st.transition(s0, 0, s1);
+                st.outcome(format!("read-answer/{}/{}", plan.split(':').next().unwrap_or(""), if verdict == "ok" { "ok" } else { "bad" }));
+                if verdict != "ok" && prop == "C18" {
+                    let plan = plan.to_string();
+                    st.violation((1 << 60) + r.0, format!("read-answer:{}", plan.split(':').next().unwrap_or("")), format!("range {}..{} of a 200001-byte file{}, {plan}: {verdict}", r.0, r.1, if via { " through serve()" } else { "" }), move || json!({"engine": "fs_mc", "what": "read-answers", "range": [r.0, r.1], "via_serve": via, "plan": plan}));
+                }
+            };
+            for &r in &ranges {
+                for via in [false, true] {
+                    let (base, calls) = with_injection(u32::MAX, Inj::Short(1), drain(crf.clone(), r, via));
+                    judge(&mut st, r, via, "none", &base, true, false);
+                    if calls == 0 {
+                        eprintln!("MACHINERY ERROR: the reads of a stream were not seen by the interposed wrappers");
+                        std::process::exit(2);
+                    }
+                    let asked = |i: u32| -> usize { std::cmp::min(65_536u64, (r.1 - r.0).saturating_sub(65_536 * i as u64)) as usize };
+                    for i in 0..calls {
+                        let n = asked(i).max(1);
+                        let mut shorts = vec![1usize, n / 2, n.saturating_sub(1), 4096, 65_535];
+                        shorts.retain(|m| *m >= 1 && *m < n);
+                        shorts.sort();
+                        shorts.dedup();
+                        for m in shorts {
+                            let (o, _) = with_injection(i, Inj::Short(m), drain(crf.clone(), r, via));
+                            judge(&mut st, r, via, &format!("short:read call {i} returns {m} bytes"), &o, true, false);
+                            n_inj += 1;
+                        }
+                        for (name, e, may_retry) in [("eio", libc::EIO, false), ("eintr", libc::EINTR, true), ("eagain", libc::EAGAIN, true)] {
+                            let (o, _) = with_injection(i, Inj::Errno(e), drain(crf.clone(), r, via));
+                            judge(&mut st, r, via, &format!("{name}:read call {i} fails with errno {e}"), &o, false, may_retry);
+                            n_inj += 1;
+                        }
+                    }
+                }
+            }
+            run.extra.insert("read_answers_injected".into(), json!({"executions": n_inj, "answers": "short read of 1 / half / n-1 / 4096 / 65535 bytes, EIO, EINTR, EAGAIN at every read call of the stream in turn", "ranges": ranges, "vectored_reads": "not injected (readv / preadv are scheduling points only)"}));
+        }
         let _ = std::fs::remove_file(&path);
     }
     // non-regular files are refused -- by both constructors
